@@ -161,38 +161,77 @@ func c11(c *core.Ctx) {
 			}
 		}
 	}
-	// step
+	// step: what is stored into the counter, through locals and phis
 	{
-		inc, wrap := false, false
-		var wrapPos, incPos ssa.Instruction
+		var classify func(v ssa.Value, d int) (inc bool, consts []int64, other bool)
+		classify = func(v ssa.Value, d int) (bool, []int64, bool) {
+			v = ssax.Strip(v)
+			if d > 6 {
+				return false, nil, true
+			}
+			if k, ok := ssax.ConstInt(v); ok {
+				return false, []int64{k}, false
+			}
+			switch x := v.(type) {
+			case *ssa.BinOp:
+				if x.Op == token.ADD {
+					for _, pr := range [][2]ssa.Value{{x.X, x.Y}, {x.Y, x.X}} {
+						if k, ok := ssax.ConstInt(pr[1]); ok && k == 1 && loadedField(pr[0]).f == seqField {
+							return true, nil, false
+						}
+					}
+				}
+			case *ssa.Phi:
+				inc, other := false, false
+				var ks []int64
+				for _, e := range x.Edges {
+					i2, k2, o2 := classify(e, d+1)
+					inc, other = inc || i2, other || o2
+					ks = append(ks, k2...)
+				}
+				return inc, ks, other
+			}
+			return false, nil, true
+		}
+		inc, wrapOK, wrapSeen, other := false, true, false, false
+		var stored []ssa.Value
+		var at ssa.Instruction
 		for _, a := range ssax.FieldAccesses(nextSeqFn, seqField) {
 			st, ok := a.Use.(*ssa.Store)
 			if !ok || a.Kind != ssax.Write {
 				continue
 			}
-			if bo, ok := st.Val.(*ssa.BinOp); ok && bo.Op == token.ADD {
-				if k, ok := ssax.ConstInt(bo.Y); ok && k == 1 && loadedField(bo.X).f == seqField {
-					inc = true
-					incPos = st
-				}
-			}
-			if k, ok := ssax.ConstInt(st.Val); ok {
-				wrapPos = st
-				if k >= 1 && k < 1024 {
-					wrap = true
+			at = st
+			stored = append(stored, st.Val)
+			i2, ks, o2 := classify(st.Val, 0)
+			inc, other = inc || i2, other || o2
+			for _, k := range ks {
+				wrapSeen = true
+				if k < 1 || k >= 1024 {
+					wrapOK = false
 				}
 			}
 		}
-		c.Ob("C11.step", fname(nextSeqFn)+"·sequenceNumber = sequenceNumber + 1", pos(c, incPos), inc, "increment by exactly one: "+boolStr(inc))
-		if wrapPos != nil {
-			c.Ob("C11.step", fname(nextSeqFn)+"·wrap value", pos(c, wrapPos), wrap, "wrap resets to a constant in [1,1024): "+boolStr(wrap))
+		p := c.P.Pos(nextSeqFn.Pos())
+		if at != nil {
+			p = pos(c, at)
+		}
+		c.Ob("C11.step", fname(nextSeqFn)+"·sequenceNumber = sequenceNumber + 1", p, inc && !other, "the counter is only ever set to itself + 1 or to a wrap constant: "+boolStr(inc && !other))
+		if wrapSeen {
+			c.Ob("C11.step", fname(nextSeqFn)+"·wrap value", p, wrapOK, "wrap resets to a constant in [1,1024): "+boolStr(wrapOK))
 		} else {
 			c.Ob("C11.step", fname(nextSeqFn)+"·wrap value", c.P.Pos(nextSeqFn.Pos()), false, "no wrap branch: the counter would pass MaxUint32-1024")
 		}
 		// the returned value is the stored counter
 		for _, r := range ssax.Returns(nextSeqFn) {
-			ok := loadedField(ssax.RetVal(r, 0)).f == seqField
-			c.Ob("C11.step", fname(nextSeqFn)+"·returns the counter", pos(c, r), ok, "returns channelInstance.sequenceNumber: "+boolStr(ok))
+			rv := ssax.Strip(ssax.RetVal(r, 0))
+			ok := loadedField(rv).f == seqField
+			for _, sv := range stored {
+				if ssax.Strip(sv) == rv {
+					ok = true
+				}
+			}
+			c.Ob("C11.step", fname(nextSeqFn)+"·returns the counter", pos(c, r), ok, "returns the value of channelInstance.sequenceNumber it has just stored: "+boolStr(ok))
 		}
 	}
 	// chunks
